@@ -1,11 +1,11 @@
 package main
 
 import (
-	"sort"
 	"fmt"
 	"go/ast"
 	"go/token"
 	"math/big"
+	"sort"
 	"strings"
 )
 
@@ -428,7 +428,9 @@ func checkC17(p *Prog, r *Report) {
 			}
 			if p.IsField(rs.Results[0], "CandidatePair.priorityOverride") {
 				facts, _ := p.FactsAtCall(pp, rs)
-				ok := facts.Has(func(f Fact) bool { return f.Op == "truth" && f.Val && p.IsField(f.X, "CandidatePair.hasPriorityOverride") })
+				ok := facts.Has(func(f Fact) bool {
+					return f.Op == "truth" && f.Val && p.IsField(f.X, "CandidatePair.hasPriorityOverride")
+				})
 				r.Check(ok, "pair priority: override only when set", p.Pos(rs.Pos()), "guarded by hasPriorityOverride", "override returned without hasPriorityOverride")
 				return true
 			}
@@ -605,7 +607,9 @@ func checkC17(p *Prog, r *Report) {
 	}
 	if f := p.Fn("candidateBase.Foundation"); r.Anchor("candidateBase.Foundation", f != nil) {
 		bad := p.cacheIncoherence(f, []string{"candidateBase.foundationOverride", "candidateBase.candidateType", "candidateBase.address", "candidateBase.networkType"},
-			func(g *Func) bool { return strings.HasPrefix(g.Root().Name, "NewCandidate") || g.Root().Name == "UnmarshalCandidate" })
+			func(g *Func) bool {
+				return strings.HasPrefix(g.Root().Name, "NewCandidate") || g.Root().Name == "UnmarshalCandidate"
+			})
 		for fv := range p.Effects(f).Writes {
 			bad = append(bad, "Foundation() writes "+p.FieldName(fv)+", which must then be reset wherever the network type or address changes")
 		}
